@@ -15,3 +15,12 @@ Definition mk (c : case) : state * sstate * list (op * out) :=
   let cf := new_cfg pps st en in (init cf m, sinit cf m, tr).
 Definition run_cases (cs : list case) : list (list N) :=
   check_all step accept out_eqb 1%N (map mk cs).
+
+(* Manager with a real subscriber_nat kernel map: (pps, start, end, log mode, max_entries, trace) *)
+Definition ke := Build_kentry.
+Definition kcase := (Z * Z * Z * logmode * Z * list (kop * kout))%type.
+Definition kmk (c : kcase) : kstate * ksstate * list (kop * kout) :=
+  let '(pps, st, en, m, mx, tr) := c in
+  let cf := new_cfg pps st en in (kinit cf m mx, ksinit cf m, tr).
+Definition run_kcases (cs : list kcase) : list (list N) :=
+  check_all kstep kaccept kout_eqb 1%N (map kmk cs).
